@@ -122,8 +122,10 @@ Dispatch(c, a) ==
       [] h = "if" -> IF n \notin {3, 4} THEN Unspec(c)
                      ELSE Sub(c, Fr("if", [then |-> a.xs[3], else |-> IF n = 4 THEN a.xs[4] ELSE Mk("none", 0, "", <<>>, NoMap), e |-> e]), a.xs[2], e)
       [] h = "fn" -> IF n < 2 \/ ~ParamsOk(a.xs[2]) THEN Unspec(c) ELSE Ret(c, FnV(e, a.xs[2], SubSeq(a.xs, 3, n)))
+      \* (try) without any operand returns nil at once: the do helper is not even entered (no flag update pending)
       [] h = "try" -> LET tp == TryParts(a) IN
-                        IF ~tp.ok THEN Unspec(c)
+                        IF n = 1 THEN Ret(c, NilV)
+                        ELSE IF ~tp.ok THEN Unspec(c)
                         ELSE IF tp.body = <<>> THEN AfterTryBody(HelperDone(c, Pend(c)), tp, e, "val", NilV)
                         ELSE Sub(c, Fr("trybody", [tp |-> tp, rest |-> Tail(tp.body), e |-> e, pend |-> Pend(c)]), tp.body[1], e)
   ELSE \* application: evaluate head and operands left to right
